@@ -17,4 +17,12 @@ KF_C07_ListComma(items) == \E i \in 1..Len(items) : Contains(items[i], COMMA)
 KF_C07_List(items) == \/ KF_C07_ListComma(items)
                       \/ \E i \in 1..Len(items) : KF_C07_PropUnescape(items[i])
                       \/ KF_C07_Bom(items[1])
+\* C08-K1 / C05-K1: Contentline.parts runs escape_string/unescape_string over the whole line,
+\* parameter section included
+KF_C08_Unescape(ps) == \E i \in 1..Len(ps) : \E j \in 1..Len(ps[i].vals) :
+                          Contains(ps[i].vals[j], BS) \/ Contains(ps[i].vals[j], PCT)
+\* C05-K2: a parameter value ending in a backslash turns the ':' (or a following ';' ',') that
+\* ends the parameter section into a placeholder, so text of the property value is read as
+\* further parameters (possible with raw value types such as URI)
+KF_C05_ParamBackslash(ps) == \E i \in 1..Len(ps) : \E j \in 1..Len(ps[i].vals) : Contains(ps[i].vals[j], BS)
 =============================================================================
